@@ -1,0 +1,57 @@
+//! Read-only instrumentation used by external verification harnesses.
+//!
+//! Everything in here is compiled only with the `verif-hooks` feature. The
+//! hooks never influence the simulation: they record the outcome of random
+//! draws and expose the sizes of otherwise hidden tables.
+
+use std::cell::RefCell;
+use std::net::{IpAddr, SocketAddr};
+
+/// One recorded decision of the simulation.
+#[derive(Debug, Clone, PartialEq, Eq)]
+pub enum Decision {
+    /// A message entered `Link::enqueue_message`.
+    Enqueue { src: SocketAddr, dst: SocketAddr },
+    /// Outcome of the random partition coin for the current enqueue.
+    RandPartition(bool),
+    /// The random repair coin was consulted for the current enqueue and came
+    /// up true (a consulted-and-false coin leaves no record).
+    RandRepair(bool),
+    /// Sampled latency: `x_ms` is `(range_ms * mult) as u64`, `delay_ns` the
+    /// resulting (clamped) delay.
+    Delay { x_ms: u64, delay_ns: u128 },
+    /// The order in which running hosts are polled in this step.
+    HostOrder(Vec<IpAddr>),
+}
+
+thread_local! {
+    static LOG: RefCell<Vec<Decision>> = const { RefCell::new(Vec::new()) };
+}
+
+pub(crate) fn record(d: Decision) {
+    LOG.with(|l| l.borrow_mut().push(d));
+}
+
+/// Drain the decision log of the current thread.
+pub fn take_decisions() -> Vec<Decision> {
+    LOG.with(|l| std::mem::take(&mut *l.borrow_mut()))
+}
+
+/// Table sizes of one host: (udp binds, tcp binds, tcp stream entries).
+#[derive(Debug, Clone, Copy, PartialEq, Eq)]
+pub struct HostTableCounts {
+    pub udp_binds: usize,
+    pub tcp_binds: usize,
+    pub tcp_streams: usize,
+}
+
+impl crate::Sim<'_> {
+    /// Sizes of the socket tables of the host at `addr`.
+    pub fn verif_host_table_counts(&self, addr: IpAddr) -> HostTableCounts {
+        self.verif_with_host(addr, |h| HostTableCounts {
+            udp_binds: h.udp.verif_bind_count(),
+            tcp_binds: h.tcp.verif_bind_count(),
+            tcp_streams: h.tcp.stream_count(),
+        })
+    }
+}
